@@ -622,6 +622,61 @@ def rule_r12(ctx):
                      % (f.name, fld, t.line, miss, miss))
 
 
+# ---------------------------------------------------------------------------
+# R14: a word taken from the wire keeps its unsigned type until it has been range-checked
+
+WIRE_WORD_GETTERS = ("nni_msg_trim_u32", "nni_msg_header_trim_u32", "nni_msg_chop_u32", "nni_msg_header_chop_u32",
+                     "nni_msg_trim_u16", "nni_msg_trim_u64", "nni_msg_peek_u32", "nni_msg_header_peek_u32")
+
+
+def rule_r14(ctx):
+    import re
+    r = ctx.rule("C11.R14", "T11", "a word taken from the wire keeps its unsigned type until it has been range-checked: wherever the "
+                 "result of nni_msg_trim_u32 / nni_msg_header_trim_u32 / nni_msg_chop_u32 (...) is kept in a local, the local "
+                 "has an unsigned type at least as wide and no cast to a signed or narrower type stands between the call and "
+                 "the store -- in a signed variable every value with the top bit set is negative and passes the upper-bound "
+                 "tests (hop count > 0xff, > ttl) that are meant to reject it", floor=6)
+    prog = ctx.prog
+    UNS = re.compile(r"^(const )?(uint32_t|uint64_t|size_t|unsigned( int| long( long)?)?|uintptr_t|nni_time)$")
+    n = 0
+    for f in prog.functions:
+        if f.cfg_failed or f.file.endswith("_test.c") or "/sp/" not in "/" + f.file:
+            continue
+        for s_ in f.sites():
+            if f.blocks[s_.b].elems[s_.i] is not s_.node:
+                continue
+            for m in walk(f.expand(s_.node)):
+                tgt = None
+                if m.get("k") == "asg" and m.get("op") == "=" and m["lhs"].get("k") == "var":
+                    tgt, rhs = m["lhs"]["n"], m["rhs"]
+                    cands = [(tgt, rhs, (f.locals().get(tgt) or {}).get("t") or "")]
+                elif m.get("k") == "decls":
+                    cands = [(d["n"], d["init"], d.get("t") or "") for d in m["d"] if d.get("init") is not None]
+                else:
+                    continue
+                for name, rhs, ty in cands:
+                    casts = []
+                    rr = f.expand(rhs) if rhs is not None else None
+                    while rr is not None and rr.get("k") == "cast":
+                        casts.append(rr.get("t") or "")
+                        rr = f.expand(rr["e"])
+                    if rr is None or rr.get("k") != "call" or rr.get("fn") not in WIRE_WORD_GETTERS:
+                        continue
+                    n += 1
+                    wide64 = rr["fn"].endswith("u64")
+                    bad_t = not UNS.match(ty.strip()) or (wide64 and "32" in ty)
+                    bad_c = [c for c in casts if c and not UNS.match(c.strip())]
+                    if bad_t or bad_c:
+                        ctx.fail(r, f, "wire word from %s kept as %s" % (rr["fn"], ty if bad_t else bad_c[0]), s_.line,
+                                 "%s stores the result of %s in %s (%s%s) at line %s: values with the top bit set turn negative "
+                                 "(or are truncated) and slip under the upper-bound checks that follow"
+                                 % (f.name, rr["fn"], name, ty, (", through a cast to " + bad_c[0]) if bad_c else "", s_.line))
+                    else:
+                        r.ob(f, "%s = %s(...) kept as %s" % (name, rr["fn"], ty))
+    if n < 6:
+        raise AnalysisBroken("only %d wire words kept in locals found" % n)
+
+
 def run(ctx):
     ctx.guard(rule_r1)
     ctx.guard(rule_r2)
@@ -635,6 +690,7 @@ def run(ctx):
     ctx.guard(rule_r10)
     ctx.guard(rule_r11)
     ctx.guard(rule_r12)
+    ctx.guard(rule_r14)
     from . import c16
     ctx.guard(c16.rule_r13)      # an unsolicited control frame must not wedge the connection
     for rr in ctx.rules:
